@@ -80,13 +80,16 @@ structure IterOps (σ : Type) where
   advance : Nat → σ → Res σ
   value : σ → Option Nat
   estimate : σ → Nat
+  /-- the keys `advance` may be called with.  Everything for the in-memory indices; for a compact posting list
+  the keys whose namespace is in the file's namespace table (`nt.Encode` panics on any other). -/
+  dom : Nat → Prop := fun _ => True
 
 /-- `R` is a simulation between implementation states and spec cursors. -/
 structure Simulation {σ : Type} (ops : IterOps σ) (R : σ → Cursor → Prop) : Prop where
   wf : ∀ s c, R s c → c.WF
   value : ∀ s c, R s c → c.cur.isSome → ops.value s = c.cur
   next : ∀ s c, R s c → ∃ s', ops.next s = .ok (c.next.1, s') ∧ (c.next.1 = true → R s' c.next.2)
-  advance : ∀ k s c, R s c →
+  advance : ∀ k s c, R s c → ops.dom k →
     ∃ s', ops.advance k s = .ok ((c.advance k).1, s') ∧ ((c.advance k).1 = true → R s' (c.advance k).2)
 
 /-- the implementation in state `s` behaves like the spec cursor `c` from here on -/
@@ -414,11 +417,11 @@ theorem RefinesAt.next {s : σ} {c : Cursor} (h : RefinesAt ops s c) :
   obtain ⟨s', h1, h2⟩ := hR.next s c hsc
   exact ⟨s', h1, fun ht => ⟨R, hR, h2 ht⟩⟩
 
-theorem RefinesAt.advance {s : σ} {c : Cursor} (h : RefinesAt ops s c) (k : Nat) :
+theorem RefinesAt.advance {s : σ} {c : Cursor} (h : RefinesAt ops s c) (k : Nat) (hk : ops.dom k) :
     ∃ s', ops.advance k s = .ok ((c.advance k).1, s') ∧
       ((c.advance k).1 = true → RefinesAt ops s' (c.advance k).2) := by
   obtain ⟨R, hR, hsc⟩ := h
-  obtain ⟨s', h1, h2⟩ := hR.advance k s c hsc
+  obtain ⟨s', h1, h2⟩ := hR.advance k s c hsc hk
   exact ⟨s', h1, fun ht => ⟨R, hR, h2 ht⟩⟩
 
 /-- `RefinesAt` is itself a simulation (the largest one). -/
@@ -426,14 +429,17 @@ theorem refinesAt_simulation : Simulation ops (RefinesAt ops) where
   wf _ _ h := h.wf
   value _ _ h hc := h.value hc
   next _ _ h := h.next
-  advance k _ _ h := h.advance k
+  advance k _ _ h hk := h.advance k hk
 
-/-- The transcript of **every** finite call sequence agrees with the spec cursor's. -/
-theorem RefinesAt.run {s : σ} {c : Cursor} (h : RefinesAt ops s c) (calls : List Call) :
+/-- The transcript of **every** finite call sequence (with `advance` keys in the domain) agrees with the spec
+cursor's. -/
+theorem RefinesAt.run {s : σ} {c : Cursor} (h : RefinesAt ops s c) (calls : List Call)
+    (hdom : ∀ k, Call.advance k ∈ calls → ops.dom k) :
     runImpl ops s calls = some (runSpec c calls) := by
   induction calls generalizing s c with
   | nil => rfl
   | cons call calls ih =>
+    have hdom' : ∀ k, Call.advance k ∈ calls → ops.dom k := fun k hk => hdom k (List.mem_cons_of_mem _ hk)
     cases call with
     | next =>
       obtain ⟨s', h1, h2⟩ := h.next
@@ -446,9 +452,9 @@ theorem RefinesAt.run {s : σ} {c : Cursor} (h : RefinesAt ops s c) (calls : Lis
           apply hr.value
           obtain ⟨_, _, _, x, hx, _⟩ := (Cursor.next_spec h.wf).1 hb
           rw [hx]; rfl
-        simp [ih hr, hv]
+        simp [ih hr hdom', hv]
     | advance k =>
-      obtain ⟨s', h1, h2⟩ := h.advance k
+      obtain ⟨s', h1, h2⟩ := h.advance k (hdom k (by simp))
       simp only [runImpl, runSpec, h1]
       cases hb : (c.advance k).1 with
       | false => simp
@@ -458,7 +464,7 @@ theorem RefinesAt.run {s : σ} {c : Cursor} (h : RefinesAt ops s c) (calls : Lis
           apply hr.value
           obtain ⟨_, _, _, x, hx, _⟩ := (Cursor.advance_spec h.wf k).1 hb
           rw [hx]; rfl
-        simp [ih hr, hv]
+        simp [ih hr hdom', hv]
 
 end
 
